@@ -110,6 +110,9 @@ pub fn vx_abs_pick_nodes(all_sorted_nodes: &mut Vec<(Distance, NodeHandle, bool)
                          dist_to_beat: DistanceToBeat, target_id: InfoHash) -> (r: (Option<[(NodeHandle, bool); ITERATIVE_PICK_NUM]>, DistanceToBeat))
 { unimplemented!() }
 
+//@begin const src/action/lookup.rs - ENDGAME_TIMEOUT
+pub exec const ENDGAME_TIMEOUT: Duration ensures dur_nanos(ENDGAME_TIMEOUT) == 1_500_000_000 { Duration::from_millis(1500) }
+//@end
 //@begin const src/action/lookup.rs - LOOKUP_TIMEOUT
 pub exec const LOOKUP_TIMEOUT: Duration ensures dur_nanos(LOOKUP_TIMEOUT) == 1_500_000_000 { Duration::from_millis(1500) }
 //@end
@@ -209,18 +212,91 @@ impl TableLookup {
     }
 //@end
 
-    // ASSUMED contract (iter_mut().filter() with mutation through the yielded reference: outside Verus' subset): the end-game round only sends
-    // get_peers queries, schedules its own timeout, marks nodes; it never yields, never touches the tokens, never schedules a table refresh
-    #[verifier::external_body]
-    pub fn start_endgame_round(&mut self, socket: &Socket, timer: &mut Timer<ScheduledTaskCheck>, Tracked(tr): Tracked<&mut Trace>) -> (r: ActionStatus)
+//@begin fn src/action/lookup.rs impl:TableLookup start_endgame_round rules=R-deasync props=C03,C19,C17
+    #[verifier::exec_allows_no_decreases_clause]
+    pub fn start_endgame_round(
+        &mut self,
+        socket: &Socket,
+        timer: &mut Timer<ScheduledTaskCheck>,
+        Tracked(tr): Tracked<&mut Trace>,
+    ) -> (r: ActionStatus)
         requires old(timer).wf()
-        ensures only_requests_and_yields(old(tr).ev, final(tr).ev), no_yield(old(tr).ev, final(tr).ev), no_new_refresh(*old(timer), *final(timer)),
-            final(self).announce_tokens == old(self).announce_tokens, final(self).will_announce == old(self).will_announce,
+        ensures only_requests_and_yields(old(tr).ev, final(tr).ev), no_yield(old(tr).ev, final(tr).ev), // @C03.endgame_round_only_queries
+            no_new_refresh(*old(timer), *final(timer)),
+            final(self).announce_tokens == old(self).announce_tokens, final(self).will_announce == old(self).will_announce, // @C03.endgame_round_keeps_tokens
             final(self).target_id == old(self).target_id, final(self).this_node_id == old(self).this_node_id,
             final(self).id_generator.action_id == old(self).id_generator.action_id,
-            forall|i: int| old(tr).ev.len() <= i < final(tr).ev.len() && #[trigger] final(tr).ev[i] is Send ==> lookup_query(*old(self), final(tr).ev[i]),
-            forall|i: int| old(tr).ev.len() <= i < final(tr).ev.len() && #[trigger] final(tr).ev[i] is Send ==> blen(final(tr).ev[i]->Send_0) <= 1500,
-    { unimplemented!() }
+            forall|i: int| old(tr).ev.len() <= i < final(tr).ev.len() && #[trigger] final(tr).ev[i] is Send ==> lookup_query(*old(self), final(tr).ev[i]), // @C19.lookup_queries_carry_8_byte_ids_of_the_search
+            forall|i: int| old(tr).ev.len() <= i < final(tr).ev.len() && #[trigger] final(tr).ev[i] is Send ==> blen(final(tr).ev[i]->Send_0) <= 1500, // @C17.lookup_queries_fit_1500_bytes
+    {
+        proof { lemma_consts(); }
+        let ghost ev0 = tr.ev;
+        // Entering the endgame phase
+        self.in_endgame = true;
+
+        // Try to start a global message timeout for the endgame
+        let timeout = timer.schedule_in(
+            ENDGAME_TIMEOUT,
+            ScheduledTaskCheck::LookupEndGame(self.id_generator.generate()),
+        );
+
+        // Request all unpinged nodes if we didnt receive any values
+        if !self.recv_values {
+            let mut vx_it = self.all_sorted_nodes.iter_mut().filter(|p: &&mut (Distance, NodeHandle, bool)| -> (b: bool) { let (_, _, req) = p; !req });
+            loop
+                invariant only_requests_and_yields(ev0, tr.ev), no_yield(ev0, tr.ev), // @C03.endgame_round_only_queries
+                    no_new_refresh(*old(timer), *timer),
+                    self.announce_tokens == old(self).announce_tokens, self.will_announce == old(self).will_announce, // @C03.endgame_round_keeps_tokens
+                    self.target_id == old(self).target_id, self.this_node_id == old(self).this_node_id,
+                    self.id_generator.action_id == old(self).id_generator.action_id,
+                    forall|i: int| ev0.len() <= i < tr.ev.len() && #[trigger] tr.ev[i] is Send ==> lookup_query(*old(self), tr.ev[i]), // @C19.lookup_queries_carry_8_byte_ids_of_the_search
+                    forall|i: int| ev0.len() <= i < tr.ev.len() && #[trigger] tr.ev[i] is Send ==> blen(tr.ev[i]->Send_0) <= 1500, // @C17.lookup_queries_fit_1500_bytes
+            {
+                let vx_nx = vx_it.next();
+                if vx_nx.is_none() {
+                    break;
+                }
+                let node_info = vx_nx.unwrap();
+                let (node_dist, node, req) = node_info;
+
+                // Generate a transaction id for this message
+                let trans_id = self.id_generator.generate();
+
+                // Associate the transaction id with this node's distance and its timeout token
+                // We dont actually need to keep track of this information, but we do still need to
+                // filter out unsolicited responses by using the active_lookups map!!!
+                self.active_lookups.insert(trans_id, (*node_dist, timeout));
+
+                // Send the message to the node
+                let get_peers_msg = Message {
+                    transaction_id: trans_id.as_ref().to_vec(),
+                    body: MessageBody::Request(Request::GetPeers(GetPeersRequest {
+                        id: self.this_node_id,
+                        info_hash: self.target_id,
+                        want: None,
+                    })),
+                };
+                proof {
+                    assert forall|t: TransactionID| #[trigger] t.bytes@ == get_peers_msg.transaction_id@ implies t == trans_id by { assert(t.bytes =~= trans_id.bytes); }
+                }
+
+                if let Err(error) = socket.send(&get_peers_msg, node.addr, Tracked(tr)) {
+                    continue;
+                }
+
+                // Mark that we requested from the node in the RoutingTable
+                if let Some(n) = self.table.lock().unwrap().find_node_mut(node, Tracked(tr)) {
+                    n.local_request()
+                }
+
+                // Mark that we requested from the node
+                *req = true;
+            }
+        }
+
+        ActionStatus::Ongoing
+    }
+//@end
 
 //@begin fn src/action/lookup.rs impl:TableLookup recv_response rules=R-deasync props=C03,C05,C19
     pub fn recv_response(
